@@ -392,7 +392,7 @@ pub fn property() -> Property {
             },
             SubCheck {
                 name: "exercise_all_queries",
-                driver: Driver::Generated { gen: gen_heavy_case, genome_len: 192, quick: 300_000, thorough: 6_000_000 },
+                driver: Driver::Generated { gen: gen_heavy_case, genome_len: 192, quick: 900_000, thorough: 7_200_000 },
                 check: exercise_check,
                 configs: Configs::Both,
                 required: &["moves>=150", "in_check", "ep_mark", "castling_right"],
@@ -401,7 +401,7 @@ pub fn property() -> Property {
             },
             SubCheck {
                 name: "append_to_full_list",
-                driver: Driver::Generated { gen: gen_heavy_case, genome_len: 192, quick: 60_000, thorough: 1_500_000 },
+                driver: Driver::Generated { gen: gen_heavy_case, genome_len: 192, quick: 180_000, thorough: 1_500_000 },
                 check: append_check,
                 configs: Configs::Both,
                 required: &["append_refused_at_capacity"],
